@@ -296,6 +296,16 @@ def correspondence(ctx):
     rng = ctx.rng
     lines, jobs = [], []
 
+    # ---------------- corpus of minimised past failures, first
+    for it, c in _corpus():
+        ctx.case('corpus', c, tag=it)
+        try:
+            bad = _eval(it, c)
+        except Exception as ex:
+            bad = [f'raised {type(ex).__name__}: {ex}']
+        for b in bad[:1]:
+            ctx.pred_fail(it, c, b)
+
     # ---------------- ring walks
     kmax = ctx.scale(12, 40)
     for k in range(0, kmax + 1):
@@ -731,10 +741,25 @@ def _eval(item, case):
     return []
 
 
+def _corpus():
+    """minimised past failures (corpus/C18/*.json), always tried first"""
+    import glob
+    import json
+    import os
+    out = []
+    for f in sorted(glob.glob(os.path.join(C.VERIF, 'corpus', 'C18', '*.json'))):
+        try:
+            o = json.load(open(f))
+            out.append((o['item'], o['input']))
+        except Exception:
+            pass
+    return out
+
+
 def search(ctx, hints):
     """small scope first: tiny apertures of every orientation / parity / exclusion, then primitives, then the inputs of
     the failing correspondence cases"""
-    cands = []
+    cands = list(_corpus())
     for k in range(1, 7):
         cands.append(('hex_ring', {'k': k}))
     for n in (33, 32):
@@ -802,9 +827,14 @@ MANIFEST_ENTRY = {
              '0<=lo<=hi<=n with at most 2s samples; compose_opd (accumulate tile*mask through windows) is linear in the '
              'coefficients, a change on one segment is confined to that segment\'s transmitting samples, a unit piston gives '
              'that segment\'s indicator; circle/annulus/rectangle/ellipse/vane are exactly their analytic inequalities, grow with '
-             'their size parameters and have the stated symmetries.  Compared with the real code each run: ring walks, ids '
+             'their size parameters and have the stated symmetries; the (unclamped) window covers every sample within +-rseg of '
+             'the segment centre except possibly one line of samples (which side depends on the parity of n); keystone sectors '
+             '(generated ring-radius recurrence and arc&angle predicate) of one ring with non-overlapping angular intervals, of '
+             'different rings, and the central disc are pairwise disjoint for every positive gap.  Compared with the real code each run: ring walks, ids '
              'under exclusion, centres, windows (exact), hexagon masks sample for sample, composition, primitives.'),
     'note': ('NOT proved: that qhull find_simplex equals point-in-polygon (trusted; boundary samples within 1e-7*rho excluded), '
-             'that the convex hull of the six vertices equals the slab hexagon (compared), keystone apertures (checked only by '
-             'predicates on the real objects against an analytic annulus oracle), areas (numerical bound perimeter*dx).'),
+             'that the convex hull of the six vertices equals the slab hexagon (compared), the wrap-around branch of the keystone '
+             'angle logic and the spider cut-outs between keystones (checked only by predicates on the real objects: segment count, '
+             'no sample in two segments, every transmitting sample in a segment, radial extent), areas (numerical bound '
+             'perimeter*dx).  Segments lying entirely outside the sampled array (empty window) are out of scope.'),
 }
